@@ -129,21 +129,28 @@ def split_run(job, r, env, t0):
         r.seconds = time.time() - t0
         r.reason = 'timeout after %ds (and no property list for the per-obligation fallback)' % job.timeout
         return r
-    outs = []
-    for pid in ids:
+    per = job.timeout if getattr(job, 'split_first', False) else max(job.timeout, 150)
+
+    def one(pid):
         try:
-            q = run_cmd(cbmc_cmd(job) + ['--property', pid], env, max(job.timeout, 150))
+            q = run_cmd(cbmc_cmd(job) + ['--property', pid], env, per)
         except subprocess.TimeoutExpired:
-            r.seconds = time.time() - t0
-            r.reason = 'timeout after %ds, and obligation %s alone also exceeds %ds' % (job.timeout, pid, job.timeout)
-            return r
+            return pid, None, 'timeout after %ds, and obligation %s alone also exceeds %ds' % (job.timeout, pid, per)
         o = q.stdout.decode(errors='replace')
         if q.returncode not in (0, 10):
-            r.seconds = time.time() - t0
-            r.reason = 'cbmc exit %d on obligation %s' % (q.returncode, pid)
-            r.log = o
-            return r
-        outs.append(o)
+            return pid, o, 'cbmc exit %d on obligation %s' % (q.returncode, pid)
+        return pid, o, None
+    import concurrent.futures as cf
+    outs = []
+    with cf.ThreadPoolExecutor(max_workers=6) as ex:
+        for pid, o, err in ex.map(one, ids):
+            if err and not r.reason:
+                r.reason = err
+                r.log = o or ''
+            outs.append(o or '')
+    if r.reason:
+        r.seconds = time.time() - t0
+        return r
     r.seconds = time.time() - t0
     r.cmd += '   [per-obligation fallback: --property <id> for each of %d obligations]' % len(ids)
     r.log = '\n'.join(outs)
